@@ -93,8 +93,8 @@ partial def branches (T : List Desc) : Shape → JV → List String
           (if kvs.any (fun kv => (fieldByKey d kv.1).isNone && !isExtKey kv.1) then ["unknown.kept"] else []) ++
           (if kvs.any (fun kv => match fieldByKey d kv.1 with | some f => isDefault f.tc kv.2 | none => false) then ["default.dropped"] else []) ++
           (if (alwaysKeys d).any (fun k => !hasKey k kvs) then ["required.added"] else []) ++
-          (if d.marsh.any (fun m => m.guard == .always && (fieldByGo d m.goName).any (fun f => f.tc == .nmap && (lookup f.key kvs).all (·.isNull)))
-             then ["requiredMapAbsent"] else []) ++
+          (if d.marsh.any (fun m => m.guard == .orEmpty && (r.fld m.goName).isNull) then ["requiredMap.filled"] else []) ++
+          (if d.marsh.any (fun m => m.guard == .neNilLenNe0 && (r.fld m.goName).isEmptyColl) then ["emptyList.omitted"] else []) ++
           (if dateTrimHit d kvs then ["dateTrim"] else [])
         here ++ kvs.flatMap (fun kv => match fieldByKey d kv.1 with
                                       | some f => (if isDefault f.tc kv.2 then [] else ["field:" ++ k ++ "." ++ kv.1]) ++ branches T f.shape kv.2
@@ -115,13 +115,13 @@ def handle (j : Json) : Json :=
   let first := rt T fuel s doc
   let second := first.bind (rt T fuel s)
   let normal := normalB T fuel s doc
-  let br := (branches T s doc).eraseDups
-  let excl := (if br.contains "dateTrim" then ["DateExampleTrim"] else []) ++
-    (if br.contains "requiredMapAbsent" then ["RequiredMapAbsent"] else []) ++
-    (if br.contains "types.empty" then ["EmptyTypeList"] else [])
+  let br := ((branches T s doc) ++ (if normal then ["spec.normal"] else []) ++
+    (if doc.clean then [] else ["excl.notClean"])).eraseDups
+  let excl := (if br.contains "dateTrim" then ["DateExampleTrim"] else [])
   let oj : Res JV → Json := fun o => match o with
     | .ok v => toJson v
     | .error .panic => jobj [("panic", Json.bool true)]
+    | .error .unparsed => jobj [("unparsed", Json.bool true)]
     | .error .fuel => Json.str "<out of fuel>"
   jobj [
     ("model", jobj [("first", oj first), ("second", oj second)]),
